@@ -73,6 +73,10 @@ CHECKS = {
          "Exploration: SVC dual coefficients within [0, C] in the direction of their sample's class and summing to zero, support vectors are training rows, decision_function = b + sum w_i K(sv_i, x) with our own kernel formulas, predict = the larger class iff the decision value is positive, for every generated visiting order (tiny sets are refitted under 60 / 400 orders); SVR box and equality constraints, epsilon-insensitive KKT conditions at every training point within tol, prediction = kernel expansion; kernel closed forms, exact symmetry, PSD Gram matrices for linear and RBF.",
          "Needs hook H2 (schedule seed in SVC's permutation). Schedules are explored by sampling seeds; exhaustive only in probability, as the property says.",
          "DESIGN.md section 7 C10"),
+ "C14": ("property-based testing (proptest): orthonormality, decorrelation, ordering and Ky-Fan optimality against an independent Jacobi eigen / singular value reference; metamorphic stacking relation; affine map recomputed from the model's serialised mean and projection",
+         "Exploration: PCA (covariance and correlation, SVD path n>p and EVD path n<=p, large means, exactly rank-deficient data, every k) yields orthonormal components, zero-mean uncorrelated transformed columns with non-increasing variances whose sum equals the k largest eigenvalues of our covariance / correlation matrix; truncated SVD yields orthonormal components capturing the k largest squared singular values and rejects k = p; both transforms are row-wise affine / linear maps (stacking, explicit recomputation).",
+         "Trusts oracle.rs (Jacobi eigen-solver, one-sided Jacobi singular values).",
+         "DESIGN.md section 7 C14"),
 }
 ALL = ["C%02d" % i for i in range(1, 21)]
 NA_REASON = {}
